@@ -19,7 +19,7 @@ RULE = ('molecules of 1..12 fragments on a random reference: random overlaps bet
 ASSUMPTIONS = ['fragments are forced into one molecule through the internal add so the equality rules do not filter the input',
                'each fragment with a read 1 contributes one call per position: the higher-quality mate; equal quality with different bases, or N: no vote']
 MIN_NONTRIVIAL = {'quick': 300, 'thorough': 30000}
-REQUIRED_MONITORS = ['ret:get_consensus', 'ret:get_consensus_dove_safe', 'oracle:positions_compared', 'oracle:tied_positions', 'meta:permutations', 'meta:duplications', 'history:repeated_requests', 'history:grown_molecule', 'lib:deep_molecules']
+REQUIRED_MONITORS = ['ret:get_consensus', 'ret:get_consensus_dove_safe', 'oracle:positions_compared', 'oracle:tied_positions', 'meta:permutations', 'meta:duplications', 'history:repeated_requests', 'history:grown_molecule', 'lib:deep_molecules', 'ret:get_consensus_with_probs_and_obs']
 SHARD_TIMEOUT = {'quick': 900, 'thorough': 5400}
 REF_LEN = 400
 
@@ -109,6 +109,28 @@ def make_frag_spec(r, ref, fid, hot, stacked=False):
     return {'kind': kind, 'recs': recs}
 
 
+def aligned_bases(rec):
+    """(reference position, base, quality) of every aligned base of a simulator record, following its CIGAR"""
+    import re
+    qp, rp = 0, rec['pos']
+    for n, op in re.findall(r'(\d+)([MIDNS=X])', rec['cigar']):
+        n = int(n)
+        if op in 'M=X':
+            for k in range(n):
+                yield rp + k, rec['seq'][qp + k], rec['qual'][qp + k]
+            qp += n
+            rp += n
+        elif op in 'IS':
+            qp += n
+        else:
+            rp += n
+
+
+def ref_end(rec):
+    import re
+    return rec['pos'] + sum(int(n) for n, op in re.findall(r'(\d+)([MIDNS=X])', rec['cigar']) if op in 'MDN=X')
+
+
 def oracle(frags, dove_safe, pos_filter=None):
     votes = defaultdict(Counter)
     ties = 0
@@ -123,7 +145,7 @@ def oracle(frags, dove_safe, pos_filter=None):
         if dove_safe:
             rev1 = bool(r1['flag'] & 16)
             rev2 = bool(r2['flag'] & 16)
-            e1, e2 = r1['pos'] + len(r1['seq']), r2['pos'] + len(r2['seq'])
+            e1, e2 = ref_end(r1), ref_end(r2)
             if rev1 and not rev2:
                 lo, hi = r2['pos'], e1 - 1
             elif not rev1 and rev2:
@@ -134,8 +156,7 @@ def oracle(frags, dove_safe, pos_filter=None):
         for rec in (r1, r2):
             if rec is None:
                 continue
-            for i, (b, q) in enumerate(zip(rec['seq'], rec['qual'])):
-                p = rec['pos'] + i
+            for p, b, q in aligned_bases(rec):
                 if lo is not None and not (lo <= p <= hi):
                     continue
                 if pos_filter is not None and not pos_filter(p):
@@ -194,8 +215,16 @@ def run_case(case):
             m._add_fragment(fr)
         return m
 
+    # the consensus can be requested plainly or together with the per-base probabilities and observations (the form the methylation
+    # callers use): the calls are the same
+    want_obs = [r.random() < 0.4]
+
     def observe(m, dove):
-        got = m.get_consensus(dove_safe=dove)
+        if want_obs[0]:
+            acc.count('ret:get_consensus_with_probs_and_obs')
+            got = m.get_consensus(dove_safe=dove, with_probs_and_obs=True)[0]
+        else:
+            got = m.get_consensus(dove_safe=dove)
         return {k[1]: v for k, v in got.items()}
     wit = {'fragments': [[(x['flag'], x['pos'], x['seq'], x['qual'][:3]) if x else None for x in f['recs']] for f in frags]}
     for dove in (False, True):
